@@ -394,5 +394,6 @@ func TestPropConfinement(t *testing.T) {
 func TestReplay(t *testing.T) {
 	testingT = t
 	vt.Register(prop)
+	vt.Register(propConc)
 	vt.Replay(t)
 }
